@@ -72,7 +72,7 @@ UNITS = [pick_unbounded, pick2]
 
 # ------------------------------------------------------------------------------ Molecule.get_consensus: majority per position
 # n fragments x P positions; each fragment contributes at most one call per position: a base over ACGTN or no call.
-def molecule_unit(n_frag, n_pos, order=None, duplicate=False):
+def molecule_unit(n_frag, n_pos, order=None, duplicate=False, probs=False):
     def setup(eng):
         eng.ghost.clear()
         calls = []
@@ -120,9 +120,15 @@ def molecule_unit(n_frag, n_pos, order=None, duplicate=False):
         'only_covered_positions': 'all(k >= 100 and k < 100 + NPOS for k in result)',
     }
     tag = '%d fragments x %d positions%s%s' % (n_frag, n_pos, ', order %s' % (order,) if order else '', ', every fragment twice' if duplicate else '')
+    params = {'self': mol}
+    if probs:
+        # the variant TAPS uses: (consensus, phred scores per base, observation vectors)
+        tag += ', with_probs_and_obs'
+        params['with_probs_and_obs'] = ('const', True)
+        spec = {k: '(lambda result: %s)(result[0])' % v for k, v in spec.items()}
     return Contract(
         PROP, FM + '::Molecule.get_consensus', name='Molecule.get_consensus[%s]' % tag,
-        params={'self': mol}, setup=setup, ensures=spec, raises={},
+        params=params, setup=setup, ensures=spec, raises={},
         bounded=tag + ' (symbolic calls over ACGTN / no call)', max_paths=100000,
         assumptions=['numpy zeros/vstack/argmax/arange/boolean-mask indexing per the NumPy reference on small arrays; '
                      'Fragment.get_consensus gives one call per covered position (pick_best_base_call contract above)',
@@ -139,10 +145,11 @@ def _mol_pre(eng, fr):
 UNITS += [molecule_unit(2, 1), molecule_unit(3, 1), molecule_unit(2, 2), molecule_unit(3, 1, order=(2, 0, 1)),
           molecule_unit(2, 1, duplicate=True),
           # four fragments: the smallest molecule with a plurality that is not an absolute majority (2:1:1)
-          molecule_unit(4, 1)]
+          molecule_unit(4, 1),
+          molecule_unit(2, 2, probs=True)]
 
 
-def molecule_replay(order, duplicate):
+def molecule_replay(order, duplicate, probs=False):
     def replay(inputs, clause):
         """real Molecule.get_consensus on stand-in fragments that return the model's per-position calls"""
         from pyvc.contract import import_real
@@ -174,7 +181,7 @@ def molecule_replay(order, duplicate):
         idx = list(order) if order else list(range(len(calls)))
         if duplicate:
             idx = idx + idx
-        got = fn(Mol([Frag(calls[i]) for i in idx]))
+        got = fn(Mol([Frag(calls[i]) for i in idx]), with_probs_and_obs=True)[0] if probs else fn(Mol([Frag(calls[i]) for i in idx]))
         npos = len(calls[0])
         expect = {}
         for p in range(npos):
@@ -193,7 +200,7 @@ def molecule_replay(order, duplicate):
 
 for _u in UNITS:
     if _u.name.startswith('Molecule.get_consensus'):
-        _u.replay = molecule_replay((2, 0, 1) if 'order' in _u.name else None, 'twice' in _u.name)
+        _u.replay = molecule_replay((2, 0, 1) if 'order' in _u.name else None, 'twice' in _u.name, 'with_probs' in _u.name)
 
 
 # ------------------------------------------------------------------------------ mate-overlap-safe window (also used by C14)
@@ -238,3 +245,57 @@ dove.ensures = {
                   '[(R2.reference_start + dove_R2_distance, R1.reference_end - 1 - dove_R1_distance)] * 2)',
 }
 UNITS.append(dove)
+
+
+# ------------------------------------------------------------------------------ read_to_consensus_dict: every aligned base of the window
+# is a call of the fragment - N included (an N read by the better mate must be able to veto the other mate's base)
+QUALF = z3.Function('query_quality_at', z3.IntSort(), z3.IntSort())
+
+
+def rtc_read(eng, name):
+    from pyvc.engine import Sym
+    pairs = []
+    for i in range(2):
+        q, r = named(INT, 'qpos%d' % i), named(INT, 'refpos%d' % i)
+        rb = named(STR, 'refbase%d' % i)
+        eng.assume(z3.And(q.z >= 0, r.z >= 0, z3.Length(rb.z) == 1))
+        pairs.append((q, r, rb))
+    eng.assume(z3.And(pairs[0][0].z < pairs[1][0].z, pairs[0][1].z < pairs[1][1].z))
+    seq = named(STR, 'query_sequence')
+    eng.assume(z3.Length(seq.z) > pairs[1][0].z)
+    eng.spec_env['PAIRS'], eng.spec_env['SEQ'] = pairs, seq
+    eng.spec_env['QUAL'] = Builtin('QUAL', lambda e, a, k, n: Sym(QUALF(a[0].z), INT))
+
+    class Quals:
+        def vc_getitem(self, e, idx, node=None):
+            return Sym(QUALF(idx.z if isinstance(idx, Sym) else z3.IntVal(idx)), INT)
+    r = stubs.make_read(eng, name, tags={}, closed=True, fields={'reference_name': lambda e, n: 'chr1', 'query_sequence': lambda e, n: seq,
+                                                                 'query_qualities': lambda e, n: Quals()})
+    stubs.STUBS['AlignedSegment']['methods']['get_aligned_pairs'] = lambda e, o, **k: list(pairs)
+    return r
+
+
+def _rtc_cond(i):
+    return ('((start is None or PAIRS[%d][1] >= start) and (end is None or PAIRS[%d][1] <= end) and '
+            '(min_phred_score is None or QUAL(PAIRS[%d][0]) >= min_phred_score) and '
+            '(only_include_refbase is None or PAIRS[%d][2].upper() == only_include_refbase))' % (i, i, i, i))
+
+
+read_to_consensus = Contract(
+    PROP, FS + '::read_to_consensus_dict', name='read_to_consensus_dict[2 aligned pairs]',
+    params={'read': rtc_read, 'start': 'int', 'end': 'int', 'only_include_refbase': 'none', 'skip_first_n_cycles': 'none',
+            'skip_last_n_cycles': 'none', 'min_phred_score': 'int'},
+    cases=[{}, {'start': 'none', 'end': 'none', 'min_phred_score': 'none'}, {'only_include_refbase': ('const', 'C')}],
+    ensures={
+        'a_position_is_called_iff_it_passes_the_window_and_quality_filters':
+            'all(any([k[1] == PAIRS[i][1] for k in result]) == %s for i in range(2))'.replace('%s', '[%s, %s][i]' % (_rtc_cond(0), _rtc_cond(1))),
+        'the_call_is_the_read_base_with_its_quality_N_included':
+            'all(implies(k[1] == PAIRS[i][1], result[k][0] == SEQ[PAIRS[i][0]] and result[k][1] == QUAL(PAIRS[i][0]) and '
+            'result[k][2] == PAIRS[i][2]) for k in result for i in range(2))',
+        'nothing_else_is_called': 'all(k[0] == "chr1" and (k[1] == PAIRS[0][1] or k[1] == PAIRS[1][1]) for k in result) and len(result) <= 2',
+    },
+    raises={},
+    bounded='two aligned (query position, reference position, reference base) pairs with symbolic values; no cycle skipping',
+    assumptions=['pysam get_aligned_pairs(matches_only, with_seq) through a stub; query_qualities an arbitrary function of the position'],
+)
+UNITS.append(read_to_consensus)
